@@ -214,8 +214,8 @@ def run(ctx):
             r["validated"] = True
             if r["id"] not in accepted:
                 obs = [d.get("obs") for d in (r.get("drift") or [])] or ["trace-rejected"]
-                r["mismatch"] = [{"obs": "trace-rejected", "diff": ",".join(sorted(set(obs))),
-                                  "detail": (r.get("drift") or [])[:4]}]
+                r["mismatch"] = (r.get("mismatch") or []) + [{"obs": "trace-rejected", "diff": ",".join(sorted(set(obs))),
+                                                              "detail": (r.get("drift") or [])[:4]}]
             ctx.add_result(r)
     if h1:
         for line in open(h1):
